@@ -14,6 +14,7 @@ import c14
 from c14 import s_, sends, case_repr
 
 PID = "C16"
+GENS = c14.GENS
 LEVEL_TEXT = ("Machine-checked proof (Coq, induction over request lists) over the shared executable model of the "
               "server side of auth_handler.py that a request for a username other than the pinned one, or for a "
               "service other than ssh-connection, sends DISCONNECT, closes the transport, consults no callback and "
@@ -21,7 +22,10 @@ LEVEL_TEXT = ("Machine-checked proof (Coq, induction over request lists) over th
               "messages sent; and that once ten of them are on the wire the transport is closed and no later "
               "request produces any output (no callback, no credential evaluation).  Tied to the source by a "
               "differential run of the model (vm_compute) against the real AuthHandler every run.")
-LEVEL_NOTE = ("Trusted: Coq kernel + vm_compute; hand-written model validated by the correspondence run; 'closed "
+LEVEL_NOTE = ("Trusted: Coq kernel + vm_compute; hand-written model validated by the correspondence run; the failure "
+              "limit and the disconnect reason codes are regenerated from the source each run (gen/c14.py, which also "
+              "checks fail-closed that _parse_newkeys creates the server AuthHandler only when there is none; re-key "
+              "histories on real transports check the same dynamically); 'closed "
               "transport processes nothing' rests on Transport.run's `while self.active` (checked on real loopback "
               "transports by the oracle, not proved); callbacks are oracles; usernames compared as valid UTF-8.")
 TECHNIQUE = "Coq proof (invariant + induction over request lists) + vm_compute differential correspondence"
@@ -161,6 +165,11 @@ def loopback_rekey(ctx, n):
     import os
     key = paramiko.RSAKey.from_private_key_file(os.path.join(ctx.repo, "tests", "_support", "rsa.key"))
     rng = ctx.rng
+    import logging
+    lg = logging.getLogger("paramiko")
+    if not lg.handlers:
+        lg.addHandler(logging.NullHandler())
+    lg.propagate = False
 
     class Srv(paramiko.ServerInterface):
         def __init__(self):
@@ -262,7 +271,7 @@ def run(ctx):
                     "the server AuthHandler is created once (Transport._parse_newkeys: only when auth_handler is None); "
                     "the model has one handler per connection -- checked by re-key histories on real transports"]
     ctx.assumptions += ["usernames / services are valid UTF-8 (byte equality = str equality)"]
-    ctx.prove()
+    ctx.prove(GENS)
     scale = 6 if ctx.thorough else 1
     c14.gss_witness(ctx)        # the shared auth model is of the repaired gssapi paths: name the input if they regress
     c14.run_sequences(ctx, 140 * scale, c16_oracle, "seq", profiles=["brute", "brute", "mixed", "lenient"])
@@ -274,7 +283,6 @@ def run(ctx):
 def replay(ctx, rep):
     case = rep.get("case") or {}
     if "loopback" in case:
-        ctx.prove()
         loopback_bruteforce(ctx, 1)
         return loopback_rekey(ctx, 4)
     if str(rep.get("key", "")).startswith("gssapi-"):
